@@ -28,6 +28,37 @@ func (c *Ctx) origin(info *types.Info, fd *ast.FuncDecl, e ast.Expr, depth int) 
 	if depth > 4 {
 		return e, fd
 	}
+	if call, isCall := e.(*ast.CallExpr); isCall {
+		// the one value an unexported helper of the package returns (every return the same origin)
+		if fn := callee(info, call); fn != nil && !fn.Exported() {
+			if sig, _ := fn.Type().(*types.Signature); sig != nil && sig.Results().Len() == 1 {
+				if d := c.P.Decls[fn.Origin()]; d != nil && d.Decl.Body != nil && d.Pkg.TypesInfo == info && d.Decl != fd {
+					var found ast.Expr
+					var ffd *ast.FuncDecl
+					same := true
+					ast.Inspect(d.Decl.Body, func(nd ast.Node) bool {
+						if _, isLit := nd.(*ast.FuncLit); isLit {
+							return false
+						}
+						r, isRet := nd.(*ast.ReturnStmt)
+						if !isRet || len(r.Results) != 1 {
+							return true
+						}
+						o, ofd := c.origin(info, d.Decl, r.Results[0], depth+1)
+						if found != nil && exprString(found) != exprString(o) {
+							same = false
+						}
+						found, ffd = o, ofd
+						return true
+					})
+					if found != nil && same {
+						return found, ffd
+					}
+				}
+			}
+		}
+		return e, fd
+	}
 	id, ok := e.(*ast.Ident)
 	if !ok {
 		return e, fd
@@ -417,7 +448,15 @@ func (c *Ctx) sqlWiring() {
 					if !isSel {
 						return true
 					}
-					fsel, isF := ast.Unparen(sel.X).(*ast.SelectorExpr)
+					stmtExpr := ast.Unparen(sel.X) // the statement may be used through a local
+					if id, isID := stmtExpr.(*ast.Ident); isID {
+						for _, ff := range c.family(fi) {
+							if ff.Decl.Body != nil && ff.Decl.Body.Pos() <= id.Pos() && id.End() <= ff.Decl.Body.End() {
+								stmtExpr, _ = c.origin(info, ff.Decl, id, 0)
+							}
+						}
+					}
+					fsel, isF := ast.Unparen(stmtExpr).(*ast.SelectorExpr)
 					if !isF {
 						return true
 					}
